@@ -9,8 +9,8 @@ enum Class { StringTag, FragmentImport, ResolveComponent, LocalBinding }
 /// Vue's Fragment for `Fragment`, runtime resolution for an unbound name, the binding itself otherwise; and the host is
 /// a component (children become slots) unless it is a string tag, Fragment or KeepAlive.
 fn tag_contract<const NAME: u8, const PATTERN: bool>() {
-    let name: &str = match NAME { 0 => "div", 1 => "svg", 2 => "Fragment", 3 => "KeepAlive", 4 => "Foo", 5 => "x-el", 6 => "foo", 7 => "Div", _ => "a" };
-    let is_html_svg = matches!(NAME, 0 | 1 | 8);
+    let name: &str = match NAME { 0 => "div", 1 => "svg", 2 => "Fragment", 3 => "KeepAlive", 4 => "Foo", 5 => "x-el", 6 => "foo", 7 => "Div", 9 => "clipPath", _ => "a" };
+    let is_html_svg = matches!(NAME, 0 | 1 | 8 | 9);
     let mut opts = any_options();
     if PATTERN { opts.custom_element_patterns.push(Regex::new("^x-").unwrap()); }
     let pattern_matches = PATTERN && NAME == 5;
@@ -53,7 +53,7 @@ macro_rules! tagh { ($($n:ident: $k:expr, $p:expr;)*) => { $(#[kani::proof] #[ka
 tagh! {
     tag_div: 0, false; tag_svg: 1, false; tag_fragment: 2, false; tag_keepalive: 3, false; tag_foo_comp: 4, false;
     tag_xel_nopattern: 5, false; tag_xel_pattern: 5, true; tag_lower_unknown: 6, false; tag_upper_div: 7, false; tag_a: 8, false;
-    tag_div_pattern: 0, true; tag_foo_pattern: 4, true;
+    tag_div_pattern: 0, true; tag_foo_pattern: 4, true; tag_camel_svg: 9, false;
 }
 
 // `<Fragment>` written by the user is not a component, whatever was imported before (C02: Fragment children are its
